@@ -314,7 +314,7 @@ def shards(tier):
     out = [("hist", init, i) for init in range(len(PARSED) + 1) for i in range(len(ALLOPS))]
     out += [("eq", i) for i in range(len(EQ_DOCS))]
     out += [("bigeq", n) for n in (bigdocs.SIZES_QUICK if tier == "quick" else bigdocs.SIZES_THOROUGH)]
-    out += [("isolation", 0), ("oddkeys", 0)]
+    out += [("isolation", 0), ("oddkeys", 0), ("eqvalues", 0)]
     return out
 
 
@@ -347,6 +347,8 @@ def run_shard(shard, tier, acc):
         isolation(acc)
     elif shard[0] == "oddkeys":
         odd_keys(acc)
+    elif shard[0] == "eqvalues":
+        equal_values(acc)
     else:
         equality_shard(shard[1], acc)
 
@@ -376,6 +378,45 @@ def isolation(acc):
                 else:
                     if fresh_ != snap:
                         acc.violation({"oracle": "entries_are_independent", "where": "later parse"}, {"case": case, "observed": fresh_, "expected": snap})
+
+
+def equal_values(acc):
+    """Assigning a value that compares equal to the stored one (True over 1, 1.0 over 1, an instance of a str subclass
+    over the equal str, an equal but distinct Field) still stores the NEW object, like d[k] = v does."""
+    from ..subtypes import I, S
+
+    groups = [[1, True, 1.0, I(1)], [0, False, 0.0], ["x", S("x")], [(1,), (True,)], ["", S("")]]
+    for g in groups:
+        for v1, v2 in itertools.permutations(g, 2):
+            for pos in range(3):
+                for how in ("setitem", "set_field"):
+                    keys = ["p", "q", "r"]
+                    e = Entry("article", "k", [Field(k, "other " + k) for k in keys])
+                    k = keys[pos]
+                    case = {"equal_values": [repr(v1), repr(v2)], "types": [type(v1).__name__, type(v2).__name__], "position": pos, "how": how}
+                    acc.trace()
+                    acc.case(nontrivial_key=("eqv", repr(v1), type(v1).__name__, repr(v2), type(v2).__name__, pos, how))
+                    try:
+                        e[k] = v1
+                        f2 = Field(k, v2)
+                        if how == "setitem":
+                            e[k] = v2
+                        else:
+                            e.set_field(f2)
+                        got = e[k]
+                        ok = got is v2 and [f.key for f in e.fields] == keys and e.fields_dict[k].value is v2 and dict(e.items())[k] is v2
+                        if ok and how == "set_field":
+                            f2.value = "edited later"
+                            ok = e.get(k) is f2 and e[k] == "edited later"
+                    except Exception as ex:
+                        acc.exception(ex, case, "assignment of an equal value")
+                        continue
+                    acc.step(("eqv", repr(v1), repr(v2)), how, repr(got))
+                    if not ok:
+                        acc.violation(
+                            {"oracle": "assignment_stores_the_new_object", "how": how},
+                            {"case": case, "observed": [repr(got), type(got).__name__], "expected": [repr(v2), type(v2).__name__]},
+                        )
 
 
 def odd_keys(acc):
@@ -568,6 +609,8 @@ def replay(case, acc):
         isolation(acc)
     elif "odd_key" in case:
         odd_keys(acc)
+    elif "equal_values" in case:
+        equal_values(acc)
     elif "doc" in case:
         equality_shard(case["doc"], acc)
     else:
